@@ -1,0 +1,40 @@
+//go:build verif
+
+package group
+
+// VerifC13HoldGroup locks the named group's own mutex (not the controller's) and returns the
+// function that unlocks it; ok is false if the controller has no such group. The C13 harness uses
+// it to keep a leave inside its critical section while another join or leave is started.
+
+func (tgc *TCPGroupCtl) VerifC13HoldGroup(name string) (release func(), ok bool) {
+	tgc.mu.Lock()
+	g, ok := tgc.groups[name]
+	tgc.mu.Unlock()
+	if !ok {
+		return nil, false
+	}
+	g.mu.Lock()
+	return g.mu.Unlock, true
+}
+
+func (ctl *HTTPGroupController) VerifC13HoldGroup(name string) (release func(), ok bool) {
+	ctl.mu.Lock()
+	g, ok := ctl.groups[name]
+	ctl.mu.Unlock()
+	if !ok {
+		return nil, false
+	}
+	g.mu.Lock()
+	return g.mu.Unlock, true
+}
+
+func (tmgc *TCPMuxGroupCtl) VerifC13HoldGroup(name string) (release func(), ok bool) {
+	tmgc.mu.Lock()
+	g, ok := tmgc.groups[name]
+	tmgc.mu.Unlock()
+	if !ok {
+		return nil, false
+	}
+	g.mu.Lock()
+	return g.mu.Unlock, true
+}
